@@ -23,6 +23,7 @@ import (
 
 	"gopkg.in/retry.v1"
 
+	"github.com/snapcore/snapd/dirs"
 	"github.com/snapcore/snapd/snap"
 	"github.com/snapcore/snapd/zzverif/vh"
 )
@@ -43,6 +44,14 @@ type c31In struct {
 	Leave    bool     `json:"leave"`
 	Attempts int      `json:"attempts"` // retry.LimitCount
 	Script   []c31Beh `json:"script"`
+	// download cache scenario: cache on, and a second Download of the same DownloadInfo to another target path
+	Second *c31Second `json:"second,omitempty"`
+}
+
+type c31Second struct {
+	Partial *string  `json:"partial"`
+	Leave   bool     `json:"leave"`
+	Script  []c31Beh `json:"script"`
 }
 
 type c31Obs struct {
@@ -50,6 +59,7 @@ type c31Obs struct {
 	Target   *string `json:"target"`
 	Partial  bool    `json:"partial"`
 	Requests int     `json:"requests"`
+	Second   *c31Obs `json:"second,omitempty"`
 }
 
 func c31Serve(script []c31Beh, served *int) http.Handler {
@@ -124,32 +134,21 @@ func c31Sha(s string) string {
 	return fmt.Sprintf("%x", h.Sum(nil))
 }
 
-func c31Exec(in c31In) vh.Out {
-	dir, err := os.MkdirTemp(os.Getenv("VERIF_SCRATCH_DIR"), "c31-")
-	if err != nil {
-		panic(err)
-	}
-	defer os.RemoveAll(dir)
-	target := filepath.Join(dir, "t", "foo.snap")
+// one Download call against a fresh server playing script; returns the observation and the three Coq terms
+func c31Call(sto *Store, dir, sub string, in c31In, partial *string, leave bool, script []c31Beh) (c31Obs, string, string, string) {
+	target := filepath.Join(dir, sub, "foo.snap")
 	os.MkdirAll(filepath.Dir(target), 0755)
-	if in.Partial != nil {
-		if err := os.WriteFile(target+".partial", []byte(*in.Partial), 0600); err != nil {
+	if partial != nil {
+		if err := os.WriteFile(target+".partial", []byte(*partial), 0600); err != nil {
 			panic(err)
 		}
 	}
 	served := 0
-	srv := httptest.NewServer(c31Serve(in.Script, &served))
+	srv := httptest.NewServer(c31Serve(script, &served))
 	defer srv.Close()
-
-	old := downloadRetryStrategy
-	downloadRetryStrategy = retry.LimitCount(in.Attempts, retry.Exponential{Initial: 50 * time.Microsecond, Factor: 1})
-	defer func() { downloadRetryStrategy = old }()
-
-	sto := New(&Config{}, nil) // no download cache (CacheDownloads = 0), no device/auth context
 	info := &snap.DownloadInfo{DownloadURL: srv.URL + "/dl", Size: in.Size, Sha3_384: c31Sha(in.Content)}
-	derr := sto.Download(context.Background(), "foo", target, info, nil, nil, &DownloadOptions{LeavePartialOnError: in.Leave})
-
-	obs := c31Obs{Err: "none", Requests: served}
+	derr := sto.Download(context.Background(), "foo", target, info, nil, nil, &DownloadOptions{LeavePartialOnError: leave})
+	obs := c31Obs{Err: "none"}
 	cerr := "ENone"
 	if derr != nil {
 		if _, ok := derr.(HashError); ok {
@@ -167,8 +166,13 @@ func c31Exec(in c31In) vh.Out {
 	if _, err := os.Stat(target + ".partial"); err == nil {
 		obs.Partial = true
 	}
+	obs.Requests = served
+	return obs, cerr, ctarget, vh.CoqBool(obs.Partial)
+}
+
+func c31CoqScript(script []c31Beh) string {
 	var items []string
-	for _, b := range in.Script {
+	for _, b := range script {
 		switch b.Kind {
 		case "drop":
 			items = append(items, "Drop")
@@ -186,10 +190,39 @@ func c31Exec(in c31In) vh.Out {
 			items = append(items, fmt.Sprintf("Resp %s %s %s %s", vh.CoqN(uint64(b.Status)), vh.CoqBool(b.HR), vh.CoqBytes(b.Body), cut))
 		}
 	}
-	partial := "None"
+	return vh.CoqList(items)
+}
+
+func c31CoqOpt(p *string) string {
+	if p == nil {
+		return "None"
+	}
+	return "(Some " + vh.CoqBytes(*p) + ")"
+}
+
+func c31Exec(in c31In) vh.Out {
+	dir, err := os.MkdirTemp(os.Getenv("VERIF_SCRATCH_DIR"), "c31-")
+	if err != nil {
+		panic(err)
+	}
+	defer os.RemoveAll(dir)
+
+	old := downloadRetryStrategy
+	downloadRetryStrategy = retry.LimitCount(in.Attempts, retry.Exponential{Initial: 50 * time.Microsecond, Factor: 1})
+	defer func() { downloadRetryStrategy = old }()
+
+	cfg := &Config{} // no download cache (CacheDownloads = 0), no device/auth context
+	if in.Second != nil {
+		dirs.SetRootDir(dir) // the cache lives in dirs.SnapDownloadCacheDir
+		defer dirs.SetRootDir("/")
+		cfg.CacheDownloads = 3
+	}
+	sto := New(cfg, nil)
+	obs, cerr, ctarget, cpartial := c31Call(sto, dir, "t", in, in.Partial, in.Leave, in.Script)
+	served := obs.Requests
+
 	pclass := "p-none"
 	if in.Partial != nil {
-		partial = "(Some " + vh.CoqBytes(*in.Partial) + ")"
 		p := *in.Partial
 		switch {
 		case p == "":
@@ -204,9 +237,26 @@ func c31Exec(in c31In) vh.Out {
 			pclass = "p-wrong"
 		}
 	}
-	coq := fmt.Sprintf("(Download.Case %s %s %s %s %s %s %s %s %s)", vh.CoqN(uint64(in.Size)), vh.CoqBytes(in.Content), partial,
-		vh.CoqBool(in.Leave), vh.CoqNat(in.Attempts), vh.CoqList(items), cerr, ctarget, vh.CoqBool(obs.Partial))
 	tags := []string{"err-" + obs.Err, pclass, fmt.Sprintf("requests-%d", served)}
+	var coq string
+	if in.Second == nil {
+		coq = fmt.Sprintf("(Download.Case %s %s %s %s %s %s %s %s %s)", vh.CoqN(uint64(in.Size)), vh.CoqBytes(in.Content), c31CoqOpt(in.Partial),
+			vh.CoqBool(in.Leave), vh.CoqNat(in.Attempts), c31CoqScript(in.Script), cerr, ctarget, cpartial)
+	} else {
+		obs2, cerr2, ctarget2, cpartial2 := c31Call(sto, dir, "t2", in, in.Second.Partial, in.Second.Leave, in.Second.Script)
+		obs.Second = &obs2
+		coq = fmt.Sprintf("(Download.CaseCached %s %s %s %s %s %s %s %s %s %s %s %s %s %s %s)", vh.CoqN(uint64(in.Size)), vh.CoqBytes(in.Content), c31CoqOpt(in.Partial),
+			vh.CoqBool(in.Leave), vh.CoqNat(in.Attempts), c31CoqScript(in.Script),
+			c31CoqOpt(in.Second.Partial), vh.CoqBool(in.Second.Leave), c31CoqScript(in.Second.Script),
+			cerr, ctarget, cpartial, cerr2, ctarget2, cpartial2)
+		tags = append(tags, "cache-on", "second-err-"+obs2.Err)
+		if obs.Err == "none" && obs2.Requests == 0 {
+			tags = append(tags, "cache-hit")
+		}
+		if obs2.Target != nil && *obs2.Target != in.Content {
+			tags = append(tags, "TARGET-DIGEST-MISMATCH")
+		}
+	}
 	if in.Size == 0 {
 		tags = append(tags, "size-unknown")
 	} else if in.Size != int64(len(in.Content)) {
@@ -215,7 +265,7 @@ func c31Exec(in c31In) vh.Out {
 	if obs.Target != nil && *obs.Target != in.Content {
 		tags = append(tags, "TARGET-DIGEST-MISMATCH")
 	}
-	return vh.Out{Observed: obs, Coq: coq, NonTrivial: served >= 2 || (in.Partial != nil && *in.Partial != "" && served >= 1), Tags: tags}
+	return vh.Out{Observed: obs, Coq: coq, NonTrivial: served >= 2 || (in.Partial != nil && *in.Partial != "" && served >= 1) || in.Second != nil, Tags: tags}
 }
 
 const c31Alpha = "abc"
@@ -312,6 +362,11 @@ func c31Gen(r *vh.Rand, tier string, n int) []c31In {
 		// undeclared size, over-long partial, server ignores Range
 		c31In{Size: 0, Content: "abcd", Partial: sp("XXXXXXXX"), Attempts: 3, Script: []c31Beh{norange("abcd")}},
 	)
+	// download cache: success then cache hit (no request although the second script would fail); failure then normal download
+	ins = append(ins,
+		c31In{Size: 4, Content: "abcd", Attempts: 3, Script: []c31Beh{good("abcd")}, Second: &c31Second{Partial: sp("XX"), Script: []c31Beh{good("XXXX")}}},
+		c31In{Size: 4, Content: "abcd", Attempts: 1, Script: []c31Beh{good("abcX")}, Second: &c31Second{Script: []c31Beh{early("abcd", 2), good("abcd")}}},
+	)
 	for i := 0; i < n; i++ {
 		content := r.Str(c31Alpha, 1, 8)
 		in := c31In{Size: int64(len(content)), Content: content, Leave: r.Chance(1, 3), Attempts: r.Range(1, 5)}
@@ -345,6 +400,14 @@ func c31Gen(r *vh.Rand, tier string, n int) []c31In {
 			if len(in.Script) > 7 {
 				in.Script = in.Script[:7]
 			}
+		}
+		if r.Chance(1, 7) {
+			sec := &c31Second{Partial: c31Partial(r, content), Leave: r.Bool()}
+			k2 := r.Intn(4)
+			for j := 0; j < k2; j++ {
+				sec.Script = append(sec.Script, c31Beh1(r, content))
+			}
+			in.Second = sec
 		}
 		ins = append(ins, in)
 	}
